@@ -326,6 +326,22 @@ func matchCollectionName(sampleCollection, targetCollection string) (bool, bool)
 		db1 == cdcreader.AllDatabase || collection1 == cdcreader.AllCollection
 }
 
+// partialOverlapCollectionName returns the only collection that two names have in common
+// when one is like "*.c" and the other one is like "d.*"
+func partialOverlapCollectionName(name1, name2 string) (string, bool) {
+	db1, collection1 := util.GetCollectionNameFromFull(name1)
+	db2, collection2 := util.GetCollectionNameFromFull(name2)
+	if db1 == cdcreader.AllDatabase && collection1 != cdcreader.AllCollection &&
+		db2 != cdcreader.AllDatabase && collection2 == cdcreader.AllCollection {
+		return util.GetFullCollectionName(collection1, db2), true
+	}
+	if db2 == cdcreader.AllDatabase && collection2 != cdcreader.AllCollection &&
+		db1 != cdcreader.AllDatabase && collection1 == cdcreader.AllCollection {
+		return util.GetFullCollectionName(collection2, db1), true
+	}
+	return "", false
+}
+
 func (e *MetaCDC) checkDuplicateCollection(uKey string,
 	newCollectionNames []string,
 	extraInfo model.ExtraInfo,
@@ -351,6 +367,12 @@ func (e *MetaCDC) checkDuplicateCollection(uKey string,
 			for _, name := range names {
 				match, containAny := matchCollectionName(name, newCollectionName)
 				if match && containAny && !lo.Contains(e.collectionNames.excludeData[uKey], newCollectionName) {
+					duplicateCollections = append(duplicateCollections, newCollectionName)
+					break
+				}
+				// "*.c" and "d.*" overlap in "d.c" though neither covers the other,
+				// it's only fine if "d.c" belongs to an older task, which both of them exclude
+				if overlapName, ok := partialOverlapCollectionName(name, newCollectionName); ok && !lo.Contains(names, overlapName) {
 					duplicateCollections = append(duplicateCollections, newCollectionName)
 					break
 				}
